@@ -39,6 +39,13 @@ From OV Require Proofs.SrcEqMesh.
      read1_ok_iff                    read returns a mesh  <->  every token parses
      read1_panic_class               a parser with one panic (f64::from_str(..).unwrap(): Unwrap): read returns exactly
                                      that panic, exactly when some token does not parse
+     read1_any_length                the complete result of read on ANY token list whose tokens parse, entry by entry:
+                                     vars[k][v] = the token at position k*(nvars+1)+v+1 IF THE FILE HAS ONE, else the
+                                     value of the mesh read into (or 0 beyond its nodes)
+     read1_incomplete_line           so a file ending in an incomplete line is read without error and the missing
+                                     variables of the last node silently keep stale values (observed on the
+                                     implementation: "1 2 3
+4 5" read into a mesh holding 80..83 gives vars[1] = [5, 81])
      tied_reread_rounded, tied_file_rounded
                                      the step function executed against the implementation on every run (tokens carried
                                      as the numbers they parse to, fmt = the measured table value -> printed value,
@@ -75,6 +82,7 @@ From OV Require Import Proofs.MeshIO3.
 From OV Require Import Proofs.MeshIO3Fmt.
 From OV Require Import Proofs.MeshIO3Inst.
 From OV Require Import Proofs.MeshIO3Out2.
+From OV Require Import Proofs.MeshIO3Any.
 
 Theorem read_layout_roundtrip_rounded : forall (A : Arith) (tok : Type) (fmt : A -> tok) (parse : tok -> res A) (rnd : A -> A),
   (forall x, parse (fmt x) = Ok (rnd x)) ->
@@ -278,6 +286,76 @@ Check tied_file_rounded : forall (A : Arith) (K : @mconst A) (m : mesh1 A A) tbl
 Print Assumptions tied_file_rounded.
 Example tied_file_rounded_nonvacuous : wf1 ex_r.
 Proof. exact ex_r_wf. Qed.
+
+Theorem read1_any_length : forall (A : Arith) (tok : Type) (parse : tok -> res A) (m0 : mesh1 A A) (toks : list tok) (val : nat -> A),
+  (forall i, i < length toks -> exists t, nth_error toks i = Some t /\ parse t = Ok (val i)) ->
+  Forall (fun r => length r = m1_nvars m0) (m1_vars m0) ->
+  let w := m1_nvars m0 + 1 in
+  let N := (length toks + m1_nvars m0) / w in
+  read1 tok parse m0 toks =
+  Ok (mkM1 (m1_nvars m0)
+        (map (fun k => val (k * w)) (seq 0 N))
+        (map (fun k => map (fun v =>
+                if k * w + S v <? length toks then val (k * w + S v)
+                else if k <? length (m1_vars m0) then nth v (nth k (m1_vars m0) []) zero
+                else zero) (seq 0 (m1_nvars m0))) (seq 0 N))).
+Proof. intros A tok parse m0 toks val. exact (MeshIO3Any.read1_any_length_spec tok parse m0 toks val). Qed.
+Check read1_any_length : forall (A : Arith) (tok : Type) (parse : tok -> res A) (m0 : mesh1 A A) (toks : list tok) (val : nat -> A),
+  (forall i, i < length toks -> exists t, nth_error toks i = Some t /\ parse t = Ok (val i)) ->
+  Forall (fun r => length r = m1_nvars m0) (m1_vars m0) ->
+  let w := m1_nvars m0 + 1 in
+  let N := (length toks + m1_nvars m0) / w in
+  read1 tok parse m0 toks =
+  Ok (mkM1 (m1_nvars m0)
+        (map (fun k => val (k * w)) (seq 0 N))
+        (map (fun k => map (fun v =>
+                if k * w + S v <? length toks then val (k * w + S v)
+                else if k <? length (m1_vars m0) then nth v (nth k (m1_vars m0) []) zero
+                else zero) (seq 0 (m1_nvars m0))) (seq 0 N))).
+Print Assumptions read1_any_length.
+(* five tokens, nvars = 2, read into a 4-node mesh holding 7s: nodes 1 4, variables [2 3] [5 7] *)
+Example read1_any_length_nonvacuous :
+  (forall i, i < length [FTok false 1; FTok false 2; FTok false 3; FTok false 4; FTok false 5] ->
+     exists t, nth_error [FTok false 1; FTok false 2; FTok false 3; FTok false 4; FTok false 5] i = Some t /\
+               parse_fix 0 t = Ok (Q2Qc (inject_Z (Z.of_nat i + 1)))) /\
+  Forall (fun r => length r = m1_nvars ex_r0) (m1_vars ex_r0) /\
+  meshQ_view (@read1 AQ ftok (parse_fix 0) ex_r0 [FTok false 1; FTok false 2; FTok false 3; FTok false 4; FTok false 5]) =
+  Some (2, [1; 4]%Q, [[2; 3]; [5; 7]]%Q).
+Proof.
+  split; [|split; [repeat constructor | exact read_incomplete_line_run]].
+  intros i Hi. cbn [length] in Hi.
+  do 5 (destruct i as [|i]; [eexists; split; [reflexivity|]; apply (f_equal (@Ok Qc)); apply Qc_is_canon; reflexivity|]).
+  exfalso. apply (Nat.lt_irrefl 5). eapply Nat.le_lt_trans; [|exact Hi]. do 5 apply le_n_S. apply Nat.le_0_l.
+Qed.
+
+Theorem read1_incomplete_line : forall (A : Arith) (tok : Type) (parse : tok -> res A) (m0 : mesh1 A A) (toks : list tok) (val : nat -> A) n r,
+  (forall i, i < length toks -> exists t, nth_error toks i = Some t /\ parse t = Ok (val i)) ->
+  Forall (fun r => length r = m1_nvars m0) (m1_vars m0) ->
+  length toks = n * (m1_nvars m0 + 1) + r -> 0 < r < m1_nvars m0 + 1 ->
+  exists m', read1 tok parse m0 toks = Ok m' /\
+    length (m1_nodes m') = n + 1 /\
+    nth n (m1_nodes m') zero = val (n * (m1_nvars m0 + 1)) /\
+    forall v, v < m1_nvars m0 ->
+      nth v (nth n (m1_vars m') []) zero =
+      if S v <? r then val (n * (m1_nvars m0 + 1) + S v)
+      else if n <? length (m1_vars m0) then nth v (nth n (m1_vars m0) []) zero else zero.
+Proof. intros A tok parse m0 toks val n r. exact (MeshIO3Any.read1_incomplete_line tok parse m0 toks val n r). Qed.
+Check read1_incomplete_line : forall (A : Arith) (tok : Type) (parse : tok -> res A) (m0 : mesh1 A A) (toks : list tok) (val : nat -> A) n r,
+  (forall i, i < length toks -> exists t, nth_error toks i = Some t /\ parse t = Ok (val i)) ->
+  Forall (fun r => length r = m1_nvars m0) (m1_vars m0) ->
+  length toks = n * (m1_nvars m0 + 1) + r -> 0 < r < m1_nvars m0 + 1 ->
+  exists m', read1 tok parse m0 toks = Ok m' /\
+    length (m1_nodes m') = n + 1 /\
+    nth n (m1_nodes m') zero = val (n * (m1_nvars m0 + 1)) /\
+    forall v, v < m1_nvars m0 ->
+      nth v (nth n (m1_vars m') []) zero =
+      if S v <? r then val (n * (m1_nvars m0 + 1) + S v)
+      else if n <? length (m1_vars m0) then nth v (nth n (m1_vars m0) []) zero else zero.
+Print Assumptions read1_incomplete_line.
+Example read1_incomplete_line_nonvacuous :
+  length [FTok false 1; FTok false 2; FTok false 3; FTok false 4; FTok false 5] = 1 * (m1_nvars ex_r0 + 1) + 2 /\
+  0 < 2 < m1_nvars ex_r0 + 1.
+Proof. split; [reflexivity | cbn; auto]. Qed.
 
 Theorem rneQ_nearest_even : forall q : Q,
   (Qabs (inject_Z (rneQ q) - q) <= 1 # 2)%Q /\
